@@ -31,7 +31,11 @@ func TestReplayOne(t *testing.T) {
 		if err := json.Unmarshal(mm.Replay, &r); err != nil {
 			t.Fatal(err)
 		}
-		sig, desc, at := runRPCPath(&r.Group, r.Group.Paths[0], res, true)
+		plan := r.Group.Plan
+		if plan == "" {
+			plan = "same32"
+		}
+		sig, desc, at := runRPCPath(&r.Group, r.Group.Paths[0], res, true, plan)
 		if sig != "" {
 			res.Mismatch(sig, fmt.Sprintf("step %d: %s", at, desc), r)
 		}
